@@ -1,6 +1,7 @@
 /-
 C08 — try/catch tables are reported exactly.
-Property theorems only (lemmas: AgVerif/Proof/Tries.lean, TriesExc.lean, TriesMain.lean).
+Property theorems only (lemmas: AgVerif/Proof/Tries.lean, TriesExc.lean, TriesMain.lean,
+TriesExist.lean).
 
 Model: AgVerif.Tries — `parseCode`/`parseCodeTail` (DalvikCode.__init__, TryItem,
 EncodedCatchHandlerList, EncodedCatchHandler, EncodedTypeAddrPair over the LEB128 model of
@@ -15,6 +16,7 @@ All theorems quantify over every try list / every plan / every byte list; `getTy
 (`vm.get_cm_type`) is an arbitrary function.
 -/
 import AgVerif.Proof.TriesMain
+import AgVerif.Proof.TriesExist
 namespace AgVerif.C08
 open AgVerif.Tries AgVerif.Spec.Tries AgVerif.Spec.Leb
 
@@ -35,6 +37,20 @@ theorem tries_roundtrip (getType : Nat → String) (h : Hdr) (hw : h.WF) (units 
   obtain ⟨out, ho, hp⟩ := roundtrip_core getType (codeOf h units insns p) p ts he rfl rfl rfl
   exact ⟨_, out, hc, ho, hp⟩
 
+/-- Every well-formed try list (numbers that fit their fields, at least one handler per try,
+    handler offsets that fit the 16-bit handler_off field) HAS an encoding — one handler list
+    per try, canonical LEB128 — so `tries_roundtrip` speaks about every such list: written
+    that way into any code item it is reported exactly. -/
+theorem tries_roundtrip_all (getType : Nat → String) (h : Hdr) (hw : h.WF) (units : Nat)
+    (hu : units < 2 ^ 32) (insns : List Nat) (hi : insns.length = units * 2)
+    (ts : List TrySpec) (hts : WFTries ts)
+    (hsmall : ∀ o ∈ (planDistinct ts).offsets, o < 2 ^ 16) (rest : List Nat) :
+    Encodes (planDistinct ts) ts ∧
+    ∃ c out, parseCode (codeItem h units insns (planDistinct ts) ++ rest) = .ok c ∧
+      determineException getType c = .ok out ∧ out.Perm (ts.map (expected getType)) :=
+  ⟨planDistinct_encodes ts hts hsmall,
+    tries_roundtrip getType h hw units hu insns hi _ ts (planDistinct_encodes ts hts hsmall) rest⟩
+
 /-- What determineException reports for EVERY code object with at least one try (no
     well-formedness assumed): the try items in an order that is a permutation of
     `get_tries()`, each paired with the handlers of `get_handlers()` whose own offset equals
@@ -45,6 +61,18 @@ theorem reported_is_permutation_of_tries (getType : Nat → String) (c : Code) (
         mapE (rangeOf getType)
           (order.map fun t => (t, c.handlers.filter (fun h => h.off = t.handlerOff + c.handlersOff))) :=
   determineException_eq getType c hpos
+
+/-- The model's `h_off` never holds a key twice, as the Python dict it stands for: grouping any
+    try list yields pairwise different keys and attaching handlers does not change the keys, so
+    "the entry with key k" (`h_off[k]`) is well defined at every step. -/
+theorem handler_dict_keys_unique (base : Nat) (tries : List TryItem) (hs : List Handler) :
+    ((attachAll (groupTries base tries) hs).map (·.1)).Nodup := by
+  have : ∀ d : Dict, (attachAll d hs).map (·.1) = d.map (·.1) := by
+    induction hs with
+    | nil => intro d; rfl
+    | cons h hs ih => intro d; simp only [attachAll, List.foldl_cons] at ih ⊢; rw [ih, dictAttach_keys]
+  rw [this]
+  exact groupTries_nodup base tries
 
 /-- A method without try items reports no exceptions. -/
 theorem no_tries_empty (getType : Nat → String) (c : Code) (h : c.triesSize = 0) :
@@ -198,6 +226,21 @@ example : Encodes exPlan exTries := by
   · exact ⟨⟨rfl, rfl, by decide, by decide, by decide, rfl, _, rfl, rfl, rfl⟩,
       ⟨rfl, rfl, by decide, by decide, by decide, rfl, _, rfl, rfl, rfl⟩,
       ⟨rfl, rfl, by decide, by decide, by decide, rfl, _, rfl, rfl, rfl⟩, trivial⟩
+
+example : WFTries exTries := by
+  refine ⟨by decide, by decide, ?_⟩
+  intro t ht
+  simp only [exTries, List.mem_cons, List.not_mem_nil, or_false] at ht
+  rcases ht with rfl | rfl | rfl <;>
+    refine ⟨by decide, by decide, by decide, by decide, ?_, by decide⟩ <;>
+    intro a ha <;> simp at ha <;> omega
+
+/-- the canonical one-list-per-try encoding of the same tries puts its handlers at 1, 5, 13 -/
+example : ∀ o ∈ (planDistinct exTries).offsets, o < 2 ^ 16 := by
+  have h : (planDistinct exTries).offsets = [1, 5, 13] := by
+    simp [planDistinct, exTries, Plan.offsets, offsetsFrom, encHandlerOf, EncHandler.bytes, EncPair.bytes,
+      uNum, sNum1, AgVerif.Leb.writeUlebNat_small, AgVerif.Leb.writeUlebNat_big]
+  rw [h]; decide
 
 def exHdr : Hdr := ⟨1, 1, 0, 0, 0⟩
 def exInsns : List Nat := [0, 0, 0, 0, 0, 0, 0, 0, 0, 0, 0, 0, 0x0e, 0]
